@@ -586,7 +586,7 @@ impl Property for C18 {
     fn runs(&self, tier: Tier) -> u64 {
         match tier {
             Tier::Quick => 120_000,
-            Tier::Thorough => 1_500_000,
+            Tier::Thorough => 20_000_000,
         }
     }
     fn required_probes(&self) -> Vec<&'static str> {
